@@ -200,6 +200,8 @@ def _run(name, fam, spec, r, np, sp, private):
             for j, i in enumerate(inputs):
                 if freeze(np, sp, [i["X"], i["kw"]]) != snap["inputs"][j]:
                     r.fail("input-mutated", site, "transform input %d changed during %s" % (j, after), op=after.split("(")[0])
+        import gc
+        gc.collect()        # objects that clean up after themselves when released are given the chance to do so
         left = sorted(os.listdir(private))
         if left:
             r.fail("tempdir-left", site, "%s left %r behind in the temporary directory" % (after, left[:4]), op=after.split("(")[0])
